@@ -2,7 +2,7 @@
 import importlib
 
 PROPS = {
-    "C13": [("u_discover", "quick"), ("u_topo", "quick")],
+    "C13": [("u_discover", "quick"), ("u_topo", "quick"), ("u_diagord", "quick")],
     "C08": [("u_capt", "quick")],
     "C16": [("u_pkgallow", "quick"), ("u_orphan", "quick"), ("u_topo", "quick")],
     "C10": [("u_intlit", "quick"), ("u_dcefx", "quick")],
@@ -10,7 +10,7 @@ PROPS = {
     "C15": [("u_art", "quick"), ("u_link", "quick"), ("u_deprec", "quick")],
     "C09": [("u_dcefx", "quick"), ("u_ceffect", "quick")],
     "C11": [("u_bp", "quick"), ("u_pratt", "quick")],
-    "C04": [("u_mls", "quick"), ("u_input", "quick"), ("u_pcore", "quick"), ("u_tree", "quick"), ("u_kind", "quick"), ("u_grammar", "quick"), ("u_parse", "quick")],
+    "C04": [("u_mls", "quick"), ("u_input", "quick"), ("u_pcore", "quick"), ("u_tree", "quick"), ("u_kind", "quick"), ("u_grammar", "quick"), ("u_parse", "quick"), ("u_occurs", "quick")],
     "C12": [("u_mls", "quick"), ("u_input", "quick"), ("u_pcore", "quick"), ("u_tree", "quick"), ("u_kind", "quick"), ("u_grammar", "quick"), ("u_parse", "quick")],
 }
 
